@@ -81,7 +81,7 @@ def build_atom(torch, name, D, pos, ctxf, seed):
         m = TR.BatchNorm(D, eps=(1e-2, 1e-3, 1e-5)[(pos + seed) % 3])
         with torch.no_grad():
             m.running_mean.copy_(torch.linspace(0.3, -0.2, D))
-            m.running_var.copy_(torch.linspace(0.02, 0.6, D) if D > 1 else torch.tensor([0.05]))
+            m.running_var.copy_(torch.linspace(0.3, 0.9, D) if D > 1 else torch.tensor([0.05]))   # D = 2 uses a fixed grid: keep the density wide
             m.unconstrained_weight.copy_(torch.linspace(0.2, 0.9, D))
             m.bias.copy_(torch.linspace(-0.1, 0.2, D))
         return m
@@ -148,29 +148,74 @@ def mass(torch, flow, D, ctx_row, panels):
         return v + torch.log(torch.cosh(t)).sum(-1)
 
     T_ = 18.0
+    # a very confident base concentrates the mass in a spike: put panel edges geometrically around the
+    # pre-image of the base mean so that the adaptive rule cannot step over it
+    t0s = None
+    try:
+        with torch.no_grad():
+            base = flow._distribution
+            if hasattr(base, "_compute_params") and ctx_row is not None:
+                mu = base._compute_params(flow._embedding_net(ctx_row))[0].reshape(1, -1)
+            elif hasattr(base, "mean_"):
+                mu = base.mean_.reshape(1, -1)
+            else:
+                mu = torch.zeros(1, D, dtype=torch.float64)
+            x0 = flow._transform.inverse(mu.double(), ctx_row)[0]
+            t0s = [float(v) for v in torch.asinh(x0).reshape(-1)]
+    except Exception:
+        pass
     if D == 1:
         from vcore.quad import integrate_adaptive_1d
 
-        # a very confident base concentrates the mass in a spike: put panel edges geometrically around the
-        # pre-image of the base mean so that the adaptive rule cannot step over it
-        extra = []
-        try:
-            with torch.no_grad():
-                base = flow._distribution
-                if hasattr(base, "_compute_params") and ctx_row is not None:
-                    mu = base._compute_params(flow._embedding_net(ctx_row))[0].reshape(1, -1)
-                elif hasattr(base, "mean_"):
-                    mu = base.mean_.reshape(1, -1)
-                else:
-                    mu = torch.zeros(1, 1, dtype=torch.float64)
-                x0 = flow._transform.inverse(mu.double(), ctx_row)[0]
-                t0 = float(torch.asinh(x0).reshape(-1)[0])
-                extra = [t0 + sgn * 10.0 ** k for k in range(-9, 1) for sgn in (-1.0, 1.0)] + [t0]
-        except Exception:
-            pass
+        extra = [t0s[0] + sgn * 10.0 ** k for k in range(-9, 1) for sgn in (-1.0, 1.0)] + [t0s[0]] if t0s else []
         # logarithmic tails (LogTanh) are extremely heavy: x = sinh(t) up to e^80
         return integrate_adaptive_1d(lp, -80.0, 80.0, tol=2e-8, init_panels=640, extra_edges=extra)
+    if D == 2:
+        from vcore.quad import integrate_adaptive_2d
+
+        extra = tuple([t0 + sgn * 10.0 ** (k / 2.0) for k in range(-6, 1) for sgn in (-1.0, 1.0)] + [t0] for t0 in t0s) if t0s and len(t0s) == 2 else ((), ())
+        tot, conv = integrate_adaptive_2d(lp, [(-T_, T_)] * 2, tol=2e-6, init_panels=48, extra_edges=extra)
+        return tot if conv else float("nan")   # not converged: no verdict
     return integrate(lp, [(-T_, T_)] * D, panels=panels, order=6, chunk=150000)
+
+
+def expected_mass(torch, flow, names, ctx_row):
+    """What exp(log_prob) of a D = 1 chain must integrate to.  1 for a chain that is onto the base support.
+    Logit clamps its input u to [eps, 1 - eps] by design (Sigmoid.inverse): beyond the clamp its image is
+    constant while its log-abs-det stays that of the clamp point.  So a chain through ONE Logit integrates to
+      (base mass of the image of [eps, 1 - eps] under the rest of the chain)
+      + eps * exp(log|det| of [logit .. end] at the clamp point + base log-density there), at either end
+    - both terms are negligible when a Gaussian base follows directly, and O(1) when a compressing stage
+    (LogTanh, a leaky ReLU, a small scale) follows.  Returns None where this accounting does not apply."""
+    if "logit" not in names:
+        return 1.0
+    if names.count("logit") > 1:
+        return 1.0 if names[-1] == "logit" and names.index("logit") == len(names) - 1 else None
+    import math
+
+    parts = list(flow._transform._transforms)
+    i = names.index("logit")
+    eps = float(getattr(parts[i], "eps", 1e-6) if not hasattr(parts[i], "_transform") else parts[i]._transform.eps)
+    with torch.no_grad():
+        u = torch.tensor([[eps], [1.0 - eps]], dtype=torch.float64)
+        c2 = ctx_row.expand(2, -1) if ctx_row is not None else None
+        y, lad = u, torch.zeros(2, dtype=torch.float64)
+        for t in parts[i:]:
+            y, l = t.forward(y, c2)
+            lad = lad + l
+        base = flow._distribution
+        if hasattr(base, "_compute_params") and ctx_row is not None:
+            mu, ls = base._compute_params(flow._embedding_net(ctx_row))
+        elif hasattr(base, "mean_"):
+            mu, ls = base.mean_, base.log_std_
+        else:
+            mu, ls = torch.zeros(1, 1, dtype=torch.float64), torch.zeros(1, 1, dtype=torch.float64)
+        m0, s0 = float(mu.reshape(-1)[0]), float(torch.exp(ls.reshape(-1)[0]))
+        z = [(float(v) - m0) / s0 for v in y.reshape(-1)]
+        lpb = [-0.5 * v * v - math.log(s0) - 0.5 * math.log(2 * math.pi) for v in z]
+        spill = sum(eps * math.exp(float(lad[k]) + lpb[k]) for k in range(2))
+    cdf = lambda v: 0.5 * math.erfc(-v / math.sqrt(2.0))
+    return abs(cdf(z[1]) - cdf(z[0])) + spill
 
 
 def flow_task(t):
@@ -235,9 +280,16 @@ def flow_task(t):
                     if onto:
                         out["fails"].append(dict(case, hist=hist, clause="raises", detail="flow %s | %s (D=%d): log_prob raised %r on the data space" % (names, case["base"], D, e)))
                     break
-                tol = 3e-5 if D == 1 else 3e-3
-                if onto and not abs(tot - 1.0) <= tol:
-                    out["fails"].append(dict(case, hist=hist, clause="not_normalised", detail="flow %s | %s (D=%d%s%s): exp(log_prob) integrates to %.7f" % (" -> ".join(names), case["base"], D, ", context row %d" % r if case["ctx"] else "", {"plain": "", "cache_after_sample": ", cache on after sample()", "after_load": ", state dict loaded into a flow built with other values"}[hist], tot)))
+                tol = 3e-5 if D == 1 else 2e-4
+                want = expected_mass(torch, flow_used, names, c) if (D == 1 and onto) else 1.0
+                if want is None:
+                    out["skipped"].append("flow %s | %s: several clamped Logit stages, no exact accounting" % (names, case["base"]))
+                    break
+                if tot != tot:
+                    out["skipped"].append("flow %s | %s (D=%d): the adaptive cubature did not converge" % (names, case["base"], D))
+                    break
+                if onto and not abs(tot - want) <= tol:
+                    out["fails"].append(dict(case, hist=hist, clause="not_normalised", detail="flow %s | %s (D=%d%s%s): exp(log_prob) integrates to %.7f%s" % (" -> ".join(names), case["base"], D, ", context row %d" % r if case["ctx"] else "", {"plain": "", "cache_after_sample": ", cache on after sample()", "after_load": ", state dict loaded into a flow built with other values"}[hist], tot, "" if want == 1.0 else " (the image of Logit's clamped domain carries base mass %.7f)" % want)))
                     break
                 if not onto and abs(tot - 1.0) <= tol:
                     out["drift"].append("flow %s | %s is not onto the base support according to FlowVal.tla but integrates to %.7f" % (names, case["base"], tot))
@@ -262,6 +314,9 @@ def main(run, replay=None):
         # the property restricts itself to flows whose integral can be computed by quadrature to 1e-5:
         # LogTanh's logarithmic tails followed by a further compressing stage put the mass beyond e^700
         n = [str(a["name"]) for a in s["prog"]]
+        # Logit clamps its input to [1e-6, 1 - 1e-6] by design (beyond +-13.8 / T its image is constant):
+        # negligible under a Gaussian base, but a LogTanh behind it brings that tail back to O(1) mass
+        # (handled exactly for D = 1: see expected_mass)
         return n.count("logtanh") <= 1 and ("logtanh" not in n or n[-1] == "logtanh")
 
     run.extra["programs_excluded_not_integrable"] = sum(1 for s in states if bool(s["onto"]) and not integrable(s))
@@ -277,11 +332,11 @@ def main(run, replay=None):
         return
     if thorough:
         rnd.shuffle(onto)
-        onto = [s for s in onto if len(s["prog"]) <= 2] + [s for s in onto if len(s["prog"]) == 3][:400]
+        onto = [s for s in onto if len(s["prog"]) <= 2] + [s for s in onto if len(s["prog"]) == 3][:2500]
     rnd.shuffle(not_onto)
     d1 = onto + not_onto[:12]
-    smooth = [s for s in onto if not ({str(a["name"]) for a in s["prog"]} & {"leakyrelu", "logtanh", "spline_tails", "spline_unit"})]
-    d2 = rnd.sample(smooth, min(len(smooth), 40 if thorough else 10))
+    smooth = [s for s in onto if not ({str(a["name"]) for a in s["prog"]} & {"leakyrelu", "logtanh", "spline_tails", "spline_unit", "logit"})]
+    d2 = rnd.sample(smooth, min(len(smooth), 150 if thorough else 10))
     extra = []
     if not thorough:
         # the squash -> unit spline -> logit pattern needs length 3
